@@ -49,14 +49,14 @@ def run(tier='quick', seed=0, only=None, verbose=False):
     from . import c09
     dj = [dict(key=f"{k}|vec={v}", spec=s, vectorize=v) for k, s in families.fam_discrete_delays_fixed()
           if k.split(':')[1] in ('three-groups', 'mixed-fanout', 'two-delays-one-source', 'same-delay-permuted-sources',
-                                 'same-delay-repeated-source') for v in (True, False)]
+                                 'same-delay-repeated-source', 'parallel-delayed', 'parallel-delayed-scalar-source') for v in (True, False)]
     if only:
         dj = [j for j in dj if only in j['key']]
     tvjobs.run_tv_jobs(rep, dj, verbose=verbose, fn=c09.job_fn)
     # a gamma-kernel edge, a plain delayed edge and an undelayed edge out of one vectorized variable (harness of C11)
     from . import c11
     gj = [dict(key=f"{k}|vec={v}|euler", spec=s, vectorize=v, solver='euler') for k, s in families.fam_gamma_fixed()
-          if k.startswith('F11x:mixed-') for v in (True, False)]
+          if k.startswith(('F11x:mixed-', 'F11x:kernels-AAB', 'F11x:parallel-kernels')) for v in (True, False)]
     if only:
         gj = [j for j in gj if only in j['key']]
     tvjobs.run_tv_jobs(rep, gj, verbose=verbose, fn=c11.job_fn)
